@@ -32,11 +32,21 @@ Inductive xsub : Type :=
 Section Translate.
 Variable d : dname.
 
-(* known bad, outside the model: an item that mentions no attribute of m (`sum(g.number for m in g.members)`: SQL attributes an
-   aggregate whose argument has outer references only to the OUTER query - findings collection-aggregate-of-outer-only-item), and the
-   sum of a boolean item (decoded by the bool converter - finding sum-of-booleans-over-collection-is-returned-as-bool) *)
-Definition item_ok (f : afn) (t : vty) (item : expr) : bool :=
-  existsb (fun i => (i <? 10)%nat) (attr_ids item) && negb (match f, t with FSum, TBool => true | _, _ => false end).
+(* known bad, outside the model: an item whose SQL mentions no column of m (`sum(g.number for m in g.members)`, also
+   `sum((g.number if m.u in () else 1) for ...)` where `m.u in ()` is translated to the constant `0 = 1`): SQL attributes an aggregate
+   whose argument has outer references only to the OUTER query - finding collection-aggregate-of-outer-only-item.  (The sum of a
+   boolean item is decoded as an int since repo commit 37ddc86.) *)
+Fixpoint qx_has_col (p : nat -> bool) (q : qx) : bool :=
+  match q with
+  | QVal _ | QParam _ => false
+  | QCol j => p j
+  | QBin _ a b => qx_has_col p a || qx_has_col p b
+  | QUn _ a => qx_has_col p a
+  | QAnd l | QOr l | QCoalesce l | QMinMax _ l => existsb (qx_has_col p) l
+  | QIn _ a l => match l with [] => false | _ => qx_has_col p a || existsb (qx_has_col p) l end    (* the builder writes `0 = 1` / `1 = 1` for an empty list: a is not in the text *)
+  | QCase c t f => qx_has_col p c || qx_has_col p t || qx_has_col p f
+  end.
+Definition item_ok (item : qx) : bool := qx_has_col (fun i => (i <? 10)%nat) item.
 
 Definition tr_subq (s : subq) : option xsub :=
   match s with
@@ -56,7 +66,7 @@ Definition tr_subq (s : subq) : option xsub :=
   | SQAgg f item c =>
       match f, ty_of item, tr_project d item, tr_conds d c with
       | FAvg, _, _, _ => None                      (* a float: outside the value domain *)
-      | _, Some (TV t), Some q, Some cs => if aggr_ty_ok f t && item_ok f t item then Some (XSAgg f (match f with FCount => true | _ => false end) q (sub_join, cs)) else None
+      | _, Some (TV t), Some q, Some cs => if aggr_ty_ok f t && item_ok q then Some (XSAgg f (match f with FCount => true | _ => false end) q (sub_join, cs)) else None
       | _, _, _, _ => None
       end
   end.
